@@ -148,6 +148,8 @@ class Executor(Engine, ExprMixin, StmtMixin, CallMixin):
 
     def apply_contract(self, st, c, f, args, kwargs, line):
         self.used_contracts.add(c.qual)
+        if c.ghost:
+            raise EngineError('call to %s: contracts with ghost parameters cannot be used at call sites' % c.qual)
         env = self.callee_env(st, c, f, args, kwargs)
         if getattr(self.frame(), 'spec_mode', False) or any(getattr(fr, 'spec_mode', False) for fr in self.frames):
             # inside a specification: only pure (uninterpreted) callees make sense; no effects, no exceptions
@@ -236,6 +238,8 @@ class Executor(Engine, ExprMixin, StmtMixin, CallMixin):
         for name, expr in c.ensures.items():
             wd, truth = self.eval_spec(st, expr, c, env2, pre)
             self.assume(st, z3.Implies(wd, truth))
+            if getattr(self, 'debug_assumed', None) is not None:
+                self.debug_assumed.append((c.qual, name, line, wd, truth, st.guard))
         return res
 
     def frame_or_top(self):
@@ -539,6 +543,9 @@ class Executor(Engine, ExprMixin, StmtMixin, CallMixin):
                     env[kw.arg] = self.eval(st, d)
                 finally:
                     self.frames.pop()
+        body_names = set(env)
+        for gname, gspec in c.ghost.items():
+            env[gname] = self.make_param(st, gname, gspec)
         pre = State(dict(env), dict(st.heap), st.guard)
         envl = self.let_env(c, env, pre)
         for r in c.requires:
@@ -548,7 +555,7 @@ class Executor(Engine, ExprMixin, StmtMixin, CallMixin):
         self.top_env = envl
         self.top_pre = pre
         self.entry_heap = dict(st.heap)
-        body_env = dict(env)
+        body_env = {k: v for k, v in env.items() if k in body_names}
         result, others = self.run_body(st, fnode, body_env, mod, None, c.qual)
         others = others + self.top_exits
         self.normal_guard = st.guard
